@@ -615,12 +615,20 @@ func runParent(args []string) error {
 		// "once the hostile connections are gone ... the user list is back": poll a sentinel's user list until it
 		// shows the sentinels only (a leak never converges; patience is bounded)
 		t0 := time.Now()
-		for time.Since(t0) < 120*time.Second {
+		// patience is bounded by PROGRESS, not by a fixed time: as long as the number of registered users keeps going
+		// down the server is working off its backlog (e.g. thousands of news posts, each rewriting the news file);
+		// a leak shows as no progress for 45 s (overall cap 20 min)
+		best, lastProgress := 1<<30, time.Now()
+		for time.Since(t0) < 20*time.Minute && time.Since(lastProgress) < 45*time.Second {
 			rep, err := s2.request(10*time.Second, sim.TGetUserNameList)
 			if err != nil {
 				break
 			}
-			if len(rep.GetAll(sim.FUsernameWithInfo)) <= 2 {
+			n := len(rep.GetAll(sim.FUsernameWithInfo))
+			if n < best {
+				best, lastProgress = n, time.Now()
+			}
+			if n <= 2 {
 				// the registry is back; ask the server for its counters as well
 				_ = os.Remove(evPath + ".snap")
 				_ = cmd.Process.Signal(syscall.SIGUSR1)
